@@ -60,6 +60,31 @@ func newValImpl(seed int64, scale string, meta absx.M) walk.Impl {
 	return valImpl{ch}
 }
 
+type oracleImpl struct{ ch *l2.Chain }
+
+func (i oracleImpl) Fork() walk.Impl { return oracleImpl{i.ch.Fork()} }
+func (i oracleImpl) Exec(e absx.M) (bool, absx.M, string) {
+	o := i.ch.Exec(e)
+	return o.OK, o.Resp, o.Err
+}
+func (i oracleImpl) Project() absx.M { return i.ch.ProjectOracle() }
+
+func newOracleImpl(seed int64, scale string, meta absx.M) walk.Impl {
+	conc := l1.NewConc(seed, parseScale(scale))
+	ch := l2.NewChain(conc, l2Cfg(meta))
+	cfg := l2.OracleCfg{Client: absx.Str(meta["client"]), Chain: absx.Str(meta["chain"]), Enabled: absx.Bool(meta["enabled"])}
+	for _, p := range absx.List(meta["pairs"]) {
+		cfg.Pairs = append(cfg.Pairs, absx.Str(p))
+	}
+	for _, v := range absx.List(meta["vals"]) {
+		cfg.Vals = append(cfg.Vals, absx.Str(v))
+	}
+	sort.Strings(cfg.Pairs)
+	sort.Strings(cfg.Vals)
+	ch.InitOracle(cfg)
+	return oracleImpl{ch}
+}
+
 func l2Cfg(meta absx.M) l2.RunCfg {
 	strs := func(v any) []string {
 		var out []string
@@ -177,6 +202,18 @@ func main() {
 		}
 		rep := walk.Walk(g, func() walk.Impl { return newValImpl(*seed, *scale, g.Meta) }, *keep)
 		writeJSON(*out, rep)
+	case "oracle-walk":
+		g, err := walk.Load(*edges)
+		if err != nil {
+			fmt.Fprintln(os.Stderr, err)
+			os.Exit(2)
+		}
+		rep := walk.Walk(g, func() walk.Impl { return newOracleImpl(*seed, *scale, g.Meta) }, *keep)
+		writeJSON(*out, rep)
+	case "oracle-replay":
+		os.Exit(replayGeneric(*file, func(nb absx.M) walk.Impl {
+			return newOracleImpl(absx.Int(nb["seed"]), absx.Str(nb["scale"]), absx.Map(nb["meta"]))
+		}))
 	case "val-replay":
 		os.Exit(replayGeneric(*file, func(nb absx.M) walk.Impl {
 			return newValImpl(absx.Int(nb["seed"]), absx.Str(nb["scale"]), absx.Map(nb["meta"]))
